@@ -25,6 +25,7 @@ Record flags := mk_flags {
   f_guard : bool;    (* run: `if handle.delegate is None: return` after the callback *)
   f_clear : bool;    (* run: a raising callback clears handle.delegate before the exception propagates *)
   f_mono : bool;     (* run: re-arm at start + n*interval, n strictly increasing; false: call_later(interval - (now-start) % interval) *)
+  f_truth : bool;    (* run: the result is tested by _is_true (Klong truth) inside the try; false: Python `if r` after it *)
   f_resolve : bool   (* KGFnWrapper.__call__ looks its symbol up in the context at every call *)
 }.
 
@@ -33,14 +34,40 @@ Record config := mk_config {
   c_lifo : bool      (* order of handles with equal deadlines: false = first armed first *)
 }.
 
-Inductive target := TRun (i : nat) | TCancel (j : nat) | TRedef (k : nat).
+Inductive target := TRun (i : nat) | TCancel (j : nat) | TRedef (k : nat) | TUndef (k : nat).
 Record handle := mk_handle { hid : nat; hwhen : Z; htgt : target }.
 
 (* what one invocation of a callback does: advance the clock by s_dur, perform
    s_act, then raise (ARaise) or return s_ret *)
-Inductive action := ANone | ACancel (j : nat) | ARedef (k : nat) | ARaise.
-Record step := mk_step { s_dur : Z; s_ret : bool; s_act : action }.
-Definition default_step := mk_step 0 false ANone.
+Inductive action := ANone | ACancel (j : nat) | ARedef (k : nat) | ARaise | ASpawn | AUndef (k : nat).
+
+(* what a callback returns, as far as a truth test can tell values apart *)
+Inductive retv :=
+| RNum (z : Z)                          (* integer or real; z = 0 iff the number is 0 *)
+| RStr (len : nat)
+| RList (len : nat) (first_true : bool) (* numpy array; first_true: its first element is non-zero *)
+| ROther.                               (* symbol, character, function, ... *)
+
+(* Klong truth, as the interpreter's conditional has it: 0, [] and "" are false *)
+Definition klong_truth (r : retv) : bool :=
+  match r with
+  | RNum z => negb (z =? 0)
+  | RStr n => negb (Nat.eqb n 0)
+  | RList n _ => negb (Nat.eqb n 0)
+  | ROther => true
+  end.
+
+(* Python `if r:` on the same values; None = raises ValueError (numpy arrays with 0 or >= 2 elements) *)
+Definition py_truth (r : retv) : option bool :=
+  match r with
+  | RNum z => Some (negb (z =? 0))
+  | RStr n => Some (negb (Nat.eqb n 0))
+  | RList n b => if Nat.eqb n 1 then Some b else None
+  | ROther => Some true
+  end.
+
+Record step := mk_step { s_dur : Z; s_ret : retv; s_act : action }.
+Definition default_step := mk_step 0 (RNum 0) ANone.
 
 (* KGTimerHandler + the closure variables of _call_periodic *)
 Record timer := mk_timer {
@@ -57,7 +84,7 @@ Inductive event :=
 | EvTick (i : nat) (t due : Z) (v : nat)  (* callback of timer i entered at clock t, from a loop handle armed for `due`; version v of its named function ran *)
 | EvEnd (i : nat) (t : Z) (o : outcome)   (* ... left at clock t *)
 | EvCancel (j : nat) (t : Z) (r : bool)   (* .timerc(handler j) returned r *)
-| EvRedef (k v : nat)                     (* the callback name of timer k was rebound to version v *)
+| EvRedef (k v : nat)                     (* from now on a call through the wrapper of timer k must run version v (name rebound; or unbound: v = the captured one) *)
 | EvIdle.                                 (* the loop has nothing left to run *)
 
 Definition upd {A} (f : nat -> A) (i : nat) (v : A) : nat -> A :=
@@ -72,32 +99,43 @@ Record world := mk_world {
   w_nt : nat;                  (* timers created so far *)
   w_tm : nat -> timer;
   w_scr : nat -> list step;    (* what the callback of timer i will do at its next invocations *)
-  w_bind : nat -> nat;         (* klong context: version currently bound to callback name k *)
-  w_nver : nat
+  w_bind : nat -> option nat;  (* klong context: version of the function currently bound to callback name k; None: deleted / not a function *)
+  w_nver : nat;
+  w_pool : list (Z * list step) (* interval and script of the timers that callbacks will create (ASpawn), in order *)
 }.
 
 Definition set_now (w : world) (t : Z) :=
-  mk_world t (w_next w) (w_sched w) (w_ready w) (w_canc w) (w_nt w) (w_tm w) (w_scr w) (w_bind w) (w_nver w).
+  mk_world t (w_next w) (w_sched w) (w_ready w) (w_canc w) (w_nt w) (w_tm w) (w_scr w) (w_bind w) (w_nver w) (w_pool w).
 Definition set_sched (w : world) (l : list handle) :=
-  mk_world (w_now w) (w_next w) l (w_ready w) (w_canc w) (w_nt w) (w_tm w) (w_scr w) (w_bind w) (w_nver w).
+  mk_world (w_now w) (w_next w) l (w_ready w) (w_canc w) (w_nt w) (w_tm w) (w_scr w) (w_bind w) (w_nver w) (w_pool w).
 Definition set_ready (w : world) (l : list handle) :=
-  mk_world (w_now w) (w_next w) (w_sched w) l (w_canc w) (w_nt w) (w_tm w) (w_scr w) (w_bind w) (w_nver w).
+  mk_world (w_now w) (w_next w) (w_sched w) l (w_canc w) (w_nt w) (w_tm w) (w_scr w) (w_bind w) (w_nver w) (w_pool w).
 Definition set_scr (w : world) (s : nat -> list step) :=
-  mk_world (w_now w) (w_next w) (w_sched w) (w_ready w) (w_canc w) (w_nt w) (w_tm w) s (w_bind w) (w_nver w).
+  mk_world (w_now w) (w_next w) (w_sched w) (w_ready w) (w_canc w) (w_nt w) (w_tm w) s (w_bind w) (w_nver w) (w_pool w).
 Definition set_tm (w : world) (i : nat) (t : timer) :=
-  mk_world (w_now w) (w_next w) (w_sched w) (w_ready w) (w_canc w) (w_nt w) (upd (w_tm w) i t) (w_scr w) (w_bind w) (w_nver w).
+  mk_world (w_now w) (w_next w) (w_sched w) (w_ready w) (w_canc w) (w_nt w) (upd (w_tm w) i t) (w_scr w) (w_bind w) (w_nver w) (w_pool w).
 Definition set_delegate (w : world) (i : nat) (d : option nat) :=
   let t := w_tm w i in
   set_tm w i (mk_timer (t_interval t) (t_start t) d (t_n t) (t_fn0 t)).
 (* TimerHandle.cancel() *)
 Definition cancel_handle (w : world) (id : nat) :=
-  mk_world (w_now w) (w_next w) (w_sched w) (w_ready w) (upd (w_canc w) id true) (w_nt w) (w_tm w) (w_scr w) (w_bind w) (w_nver w).
+  mk_world (w_now w) (w_next w) (w_sched w) (w_ready w) (upd (w_canc w) id true) (w_nt w) (w_tm w) (w_scr w) (w_bind w) (w_nver w) (w_pool w).
 (* klong('cbK::{...}') : a fresh version is bound to name k *)
 Definition redefine (w : world) (k : nat) :=
   mk_world (w_now w) (w_next w) (w_sched w) (w_ready w) (w_canc w) (w_nt w) (w_tm w) (w_scr w)
-           (upd (w_bind w) k (w_nver w)) (S (w_nver w)).
+           (upd (w_bind w) k (Some (w_nver w))) (S (w_nver w)) (w_pool w).
+(* del klong['cbK'] / cbK::5 : no function under that name any more *)
+Definition undefine (w : world) (k : nat) :=
+  mk_world (w_now w) (w_next w) (w_sched w) (w_ready w) (w_canc w) (w_nt w) (w_tm w) (w_scr w)
+           (upd (w_bind w) k None) (w_nver w) (w_pool w).
+(* KGFnWrapper.__call__ of the wrapper made for timer k: the function now bound to the name if there is one,
+   else the function object captured when the wrapper was made *)
+Definition fallback (w : world) (k : nat) : nat := if (k <? w_nt w)%nat then t_fn0 (w_tm w k) else O.
+Definition eff (w : world) (k : nat) : nat := match w_bind w k with Some v => v | None => fallback w k end.
+Definition set_pool (w : world) (p : list (Z * list step)) :=
+  mk_world (w_now w) (w_next w) (w_sched w) (w_ready w) (w_canc w) (w_nt w) (w_tm w) (w_scr w) (w_bind w) (w_nver w) p.
 Definition add_timer (w : world) (t : timer) :=
-  mk_world (w_now w) (w_next w) (w_sched w) (w_ready w) (w_canc w) (S (w_nt w)) (upd (w_tm w) (w_nt w) t) (w_scr w) (w_bind w) (w_nver w).
+  mk_world (w_now w) (w_next w) (w_sched w) (w_ready w) (w_canc w) (S (w_nt w)) (upd (w_tm w) (w_nt w) t) (w_scr w) (w_bind w) (w_nver w) (w_pool w).
 
 (* heapq order of the harness loop: by deadline, ties by arming order (or reverse) *)
 Fixpoint insert_h (lifo : bool) (h : handle) (l : list handle) : list handle :=
@@ -108,11 +146,11 @@ Fixpoint insert_h (lifo : bool) (h : handle) (l : list handle) : list handle :=
 
 Definition call_soon (tg : target) (w : world) : world * nat :=
   let id := w_next w in
-  (mk_world (w_now w) (S id) (w_sched w) (w_ready w ++ [mk_handle id (w_now w) tg]) (w_canc w) (w_nt w) (w_tm w) (w_scr w) (w_bind w) (w_nver w), id).
+  (mk_world (w_now w) (S id) (w_sched w) (w_ready w ++ [mk_handle id (w_now w) tg]) (w_canc w) (w_nt w) (w_tm w) (w_scr w) (w_bind w) (w_nver w) (w_pool w), id).
 
 Definition call_at (cfg : config) (when : Z) (tg : target) (w : world) : world * nat :=
   let id := w_next w in
-  (mk_world (w_now w) (S id) (insert_h (c_lifo cfg) (mk_handle id when tg) (w_sched w)) (w_ready w) (w_canc w) (w_nt w) (w_tm w) (w_scr w) (w_bind w) (w_nver w), id).
+  (mk_world (w_now w) (S id) (insert_h (c_lifo cfg) (mk_handle id when tg) (w_sched w)) (w_ready w) (w_canc w) (w_nt w) (w_tm w) (w_scr w) (w_bind w) (w_nver w) (w_pool w), id).
 
 (* KGTimerHandler.cancel *)
 Definition handler_cancel (i : nat) (w : world) : world * bool :=
@@ -130,7 +168,7 @@ Definition create_timer (cfg : config) (iv : Z) (w : world) : world * list event
   let i := w_nt w in
   let start := w_now w in
   let '(w1, id) := if iv =? 0 then call_soon (TRun i) w else call_at cfg (start + iv) (TRun i) w in
-  (add_timer w1 (mk_timer iv start (Some id) 1 (w_bind w i)), [EvCreate i start iv]).
+  (add_timer w1 (mk_timer iv start (Some id) 1 (match w_bind w i with Some v => v | None => O end)), [EvCreate i start iv]).
 
 (* eval_sys_fn_timer: argument checks, in the order of the source *)
 Inductive zkind := ZCall | ZFn | ZCallable | ZOther.
@@ -158,33 +196,53 @@ Definition rearm (fl : flags) (cfg : config) (i : nat) (w : world) : world :=
     let '(w1, id) := call_at cfg (w_now w + (iv - ((w_now w - start) mod iv))) (TRun i) w in
     set_tm w1 i (mk_timer iv start (Some id) (t_n t) (t_fn0 t)).
 
-(* the callback body (harness script) : clock advance + action *)
-Definition do_action (st : step) (w : world) : world * list event * bool :=
+(* the callback body (harness script) : clock advance + action.  ASpawn: the callback calls .timer for the
+   next timer of the pool (a negative interval is refused by eval_sys_fn_timer) *)
+Definition do_action (cfg : config) (st : step) (w : world) : world * list event * bool :=
   let w1 := set_now w (w_now w + Z.max 0 (s_dur st)) in
   match s_act st with
   | ANone => (w1, [], false)
   | ACancel j => let '(w2, r) := sys_timerc j w1 in (w2, [EvCancel j (w_now w1) r], false)
   | ARedef k => (redefine w1 k, [EvRedef k (w_nver w1)], false)
+  | AUndef k => (undefine w1 k, [EvRedef k (fallback w1 k)], false)
   | ARaise => (w1, [], true)
+  | ASpawn =>
+      match w_pool w1 with
+      | [] => (w1, [], false)
+      | (iv, scr) :: rest =>
+          let w2 := set_pool w1 rest in
+          if iv <? 0 then (w2, [], false) else
+          let '(w3, e) := create_timer cfg iv (set_scr w2 (upd (w_scr w2) (w_nt w2) scr)) in
+          (w3, e, false)
+      end
   end.
 
-(* what follows `r = fn()` in run *)
+(* the branch of run taken on a result the truth test calls b *)
+Definition continue_or_stop (fl : flags) (cfg : config) (i : nat) (b : bool) (w : world) : world :=
+  if f_guard fl && is_none (t_delegate (w_tm w i)) then w
+  else if b then rearm fl cfg i w
+  else fst (handler_cancel i w).
+
+(* what follows the callback in run.  The event records what the callback returned, as a Klong truth value. *)
 Definition epilogue (fl : flags) (cfg : config) (i : nat) (st : step) (raised : bool) (w : world) : world * list event :=
   if raised then
     ((if f_clear fl then set_delegate w i None else w), [EvEnd i (w_now w) Raised])
   else
-    let ev := [EvEnd i (w_now w) (if s_ret st then RetTrue else RetFalse)] in
-    if f_guard fl && is_none (t_delegate (w_tm w i)) then (w, ev)
-    else if s_ret st then (rearm fl cfg i w, ev)
-    else (fst (handler_cancel i w), ev).
+    let ev := [EvEnd i (w_now w) (if klong_truth (s_ret st) then RetTrue else RetFalse)] in
+    if f_truth fl then (continue_or_stop fl cfg i (klong_truth (s_ret st)) w, ev)
+    else
+      match py_truth (s_ret st) with
+      | Some b => (continue_or_stop fl cfg i b w, ev)
+      | None => (w, ev)       (* `if r` raises after the try block: nothing is cleared, nothing re-armed *)
+      end.
 
 (* _call_periodic.run(handle), entered from a loop handle armed for `due` *)
 Definition run_timer (fl : flags) (cfg : config) (i : nat) (due : Z) (w : world) : world * list event :=
   let st := match w_scr w i with s :: _ => s | [] => default_step end in
-  let v := if f_resolve fl then w_bind w i else t_fn0 (w_tm w i) in
+  let v := if f_resolve fl then eff w i else t_fn0 (w_tm w i) in
   let ev1 := EvTick i (w_now w) due v in
   let w0 := set_scr w (upd (w_scr w) i (tl (w_scr w i))) in
-  let '(w1, evs, raised) := do_action st w0 in
+  let '(w1, evs, raised) := do_action cfg st w0 in
   let '(w2, eve) := epilogue fl cfg i st raised w1 in
   (w2, ev1 :: evs ++ eve).
 
@@ -195,6 +253,7 @@ Definition run_handle (fl : flags) (cfg : config) (h : handle) (w : world) : wor
   | TRun i => run_timer fl cfg i (hwhen h) w
   | TCancel j => let '(w1, r) := sys_timerc j w in (w1, [EvCancel j (w_now w) r])
   | TRedef k => (redefine w k, [EvRedef k (w_nver w)])
+  | TUndef k => (undefine w k, [EvRedef k (fallback w k)])
   end.
 
 (* for i in range(ntodo): handle = ready.popleft(); ... *)
@@ -254,13 +313,14 @@ Fixpoint run_loop (fl : flags) (cfg : config) (fuel : nat) (lats : list Z) (w : 
   end.
 
 (* ---- a whole experiment ---------------------------------------------------- *)
-Inductive ext := XCancel (j : nat) | XRedef (k : nat).
-Definition ext_target (x : ext) : target := match x with XCancel j => TCancel j | XRedef k => TRedef k end.
+Inductive ext := XCancel (j : nat) | XRedef (k : nat) | XUndef (k : nat).
+Definition ext_target (x : ext) : target :=
+  match x with XCancel j => TCancel j | XRedef k => TRedef k | XUndef k => TUndef k end.
 
 Record tspec := mk_tspec { ts_gap : Z; ts_interval : Z; ts_script : list step }.
 
-Definition world0 (t0 : Z) : world :=
-  mk_world t0 O [] [] (fun _ => false) O (fun _ => timer0) (fun _ => []) (fun _ => O) 1%nat.
+Definition world0 (t0 : Z) (pool : list (Z * list step)) : world :=
+  mk_world t0 O [] [] (fun _ => false) O (fun _ => timer0) (fun _ => []) (fun _ => Some O) 1%nat pool.
 
 Fixpoint arm_exts (cfg : config) (xs : list (Z * ext)) (w : world) : world :=
   match xs with
@@ -283,10 +343,10 @@ Fixpoint create_all (cfg : config) (ts : list tspec) (w : world) : world * list 
   end.
 
 Definition simulate (fl : flags) (cfg : config) (t0 : Z) (xs : list (Z * ext)) (ts : list tspec)
-           (lats : list Z) (fuel : nat) : world * list event :=
-  let '(w1, e1) := create_all cfg ts (arm_exts cfg xs (world0 t0)) in
+           (pool : list (Z * list step)) (lats : list Z) (fuel : nat) : world * list event :=
+  let '(w1, e1) := create_all cfg ts (arm_exts cfg xs (world0 t0 pool)) in
   let '(w2, e2) := run_loop fl cfg fuel lats w1 in
   (w2, e1 ++ e2).
 
 (* the flags of the checked-out source *)
-Definition src_flags : flags := mk_flags gen_guard gen_clear gen_mono gen_resolve.
+Definition src_flags : flags := mk_flags gen_guard gen_clear gen_mono gen_truth gen_resolve.
